@@ -119,7 +119,11 @@ Two DIFFERENT changes (call them {pid}-{k1} and {pid}-{k2}) to the library's non
    before the call starts, bind port = controller port = listen port, segment maps with extra keys, concurrent comparisons
    and concurrent client construction, malformed datagrams while a stopping callback is busy, addresses wrapped in URL / CIDR
    syntax, every JSON leaf replaced by null and other shapes, socket counts with the garbage collector off, windows at every
-   alignment:
+   alignment, decodes right after a recovered codec panic, raw time.Now() readings as operands, stop requests queued before
+   Listen is called, replies carrying the serial number of another known controller, broadcast address = controller address,
+   tens of thousands of calls so that every ephemeral port turns up, unprivileged child processes, IP / mask arguments in
+   every net.IP form, names padded with every kind of white space, digits of other scripts, bulk values right after
+   rejected bulk values:
    look for what such testing still would NOT reach.
 
 Changes of earlier rounds - do NOT repeat these or close variants of them; find a different mechanism, a different
